@@ -34,6 +34,10 @@ NextD(k, s, dd, c) ==
      IF p \in PredsAt(k, s, dd) /\ p \in AStateful[k] THEN <<Cap(Res(k, p, dd, c)[2]), Res(k, p, dd, c)[3]>> ELSE dd[p]]
 
 (***************************************************************************)
+(* TLC passes the arguments of a recursive operator as unevaluated         *)
+(* expressions and re-evaluates them at every use: the depth vector would  *)
+(* be recomputed from the start of the run at each step (exponential in    *)
+(* the length).  TLCEval forces the value once.                            *)
 (* Search over token-class sequences with the extracted automata (C14,     *)
 (* header shapes).  Greedy run of one attempt from position s (0-based):   *)
 (* consume while exactly one transition is enabled.                        *)
@@ -43,7 +47,7 @@ Run(a, w, e, s, dd) ==       \* returns <<end, state, depths>>
   IF e >= Len(w) THEN <<e, s, dd>>
   ELSE LET en == EnabledSet(a, s, dd, w[e + 1]) IN
        IF Cardinality(en) # 1 THEN <<e, s, dd>>
-       ELSE Run(a, w, e + 1, (CHOOSE t \in en : TRUE)[3], NextD(a, s, dd, w[e + 1]))
+       ELSE Run(a, w, e + 1, (CHOOSE t \in en : TRUE)[3], TLCEval(NextD(a, s, dd, w[e + 1])))
 Attempt(a, w, s) == Run(a, w, s, AStart[a], Depth0(a))
 Succeeds(a, w, s) == LET r == Attempt(a, w, s) IN r[1] > s /\ r[2] \in AAccepting[a]
 (* does the attempt from s run into a configuration with two enabled transitions (C15's subject)? *)
@@ -53,7 +57,7 @@ RunAmb(a, w, e, s, dd) ==
   ELSE LET en == EnabledSet(a, s, dd, w[e + 1]) IN
        IF Cardinality(en) > 1 THEN TRUE
        ELSE IF Cardinality(en) = 0 THEN FALSE
-       ELSE RunAmb(a, w, e + 1, (CHOOSE t \in en : TRUE)[3], NextD(a, s, dd, w[e + 1]))
+       ELSE RunAmb(a, w, e + 1, (CHOOSE t \in en : TRUE)[3], TLCEval(NextD(a, s, dd, w[e + 1])))
 AnyAmbiguous(a, w) == \E s \in 0..(Len(w) - 1) : RunAmb(a, w, s, AStart[a], Depth0(a))
 RECURSIVE HSearchFrom(_, _, _)
 HSearchFrom(a, w, s) ==
